@@ -628,7 +628,18 @@ MutableNodeRefList::addNodeInDocOrder(
                             theFirstNode : theFirstNode->getOwnerDocument();
                 assert(theFirstNodeOwner != 0);
 
-                if (node->isIndexed() == true &&
+                if (node == theFirstNodeOwner)
+                {
+                    // The node is the document node that owns the first
+                    // node in the list.  It precedes all of its own nodes
+                    // in document order, so it belongs at the front, unless
+                    // it's already there.
+                    if (theFirstNode != node)
+                    {
+                        m_nodeList.insert(m_nodeList.begin(), node);
+                    }
+                }
+                else if (node->isIndexed() == true &&
                     node->getOwnerDocument() == theFirstNodeOwner)
                 {
                     // If it's indexed, then see if the entire list consists of
